@@ -27,9 +27,6 @@ class PersistentWorker(Worker):
         if _results_pipe is None:
             raise ValueError('_results_pipe should not be None')
         self._results_pipe = _results_pipe
-        # (re)set in the child by _init_child, but cleanup code can run before that if the child is terminated early
-        self._counter = 0
-        self._stop = False
         super().__init__(target, **kwargs)
         self._closed = False
 
